@@ -198,6 +198,13 @@ type Cell struct {
 	ver int64
 	cur *Tracked
 
+	// Pair: the cell follows the fetch-then-register discipline instead:
+	// readers fetch (version, resource) as one atomic pair and THEN register
+	// that resource; this is only correct when every write replaces the
+	// resource and permanently invalidates the old one, so writes to a Pair
+	// cell are always invalidate-style (never Strobe).
+	Pair bool
+
 	gate gate
 }
 
@@ -475,17 +482,51 @@ func (c *Cell) current() *Tracked {
 	return tr
 }
 
+// fetchPair returns the current (resource, version) pair, read in one
+// critical section (a resource thunder has already released is replaced first).
+func (c *Cell) fetchPair() (*Tracked, int64) {
+	for {
+		c.mu.Lock()
+		tr, v := c.cur, atomic.LoadInt64(&c.ver)
+		c.mu.Unlock()
+		c.w.mu.Lock()
+		dead := tr.invalidated || tr.cleanups > 0
+		c.w.mu.Unlock()
+		if !dead {
+			return tr, v
+		}
+		nt := c.w.newTracked(c.Idx, nil)
+		c.mu.Lock()
+		if c.cur == tr {
+			c.cur = nt
+		}
+		c.mu.Unlock()
+	}
+}
+
 // Read registers the cell's current resource with the computation in ctx and
-// then reads the version.
+// then reads the version; a Pair cell fetches (version, resource) first and
+// then registers the resource it fetched.
 func (c *Cell) Read(ctx context.Context, in *inst) ReadRec {
-	tr := c.current()
+	var tr *Tracked
+	var v int64
+	if c.Pair {
+		tr, v = c.fetchPair()
+	} else {
+		tr = c.current()
+	}
 	c.w.mu.Lock()
 	tr.added = true
+	if c.Pair {
+		c.w.Stats["fetch_then_register_reads"]++
+	}
 	c.w.mu.Unlock()
 	c.gate.park(2 * time.Millisecond)
 	reactive.AddDependency(ctx, tr.Res, nil)
 	c.w.hold(in, tr)
-	v := atomic.LoadInt64(&c.ver)
+	if !c.Pair {
+		v = atomic.LoadInt64(&c.ver)
+	}
 	return ReadRec{Cell: c.Idx, Ver: v, Res: tr.ID}
 }
 
@@ -549,6 +590,9 @@ const (
 // Write bumps the version and then invalidates in the given style.
 func (c *Cell) Write(style string) {
 	w := c.w
+	if c.Pair && style == WStrobe {
+		style = WInvalidate
+	}
 	switch style {
 	case WStrobe:
 		c.mu.Lock()
@@ -591,6 +635,11 @@ func (c *Cell) StormWrite(minParked int, maxWait time.Duration, variant int) {
 	old := c.cur
 	c.cur = nt
 	c.mu.Unlock()
+	w.mu.Lock()
+	if old.holds == 0 {
+		w.Stats["storm_invalidate_of_resource_without_registered_dependant"]++
+	}
+	w.mu.Unlock()
 	w.noteWrite(c, old, WInvalidate, v)
 	if variant%2 == 0 {
 		// staggered: readers leave the gate as the scheduler wakes them,
